@@ -261,7 +261,7 @@ StackSizeOk(abi, o, sts) ==
 
 RetOk(abi, o) == o.ret = "void" \/ ~RetAsserted(abi, o.ret) \/ PackOk(o.r, ExpectedRet(abi, o.ret))
 
-Conforms(o) ==
+PlacementOk(o) ==
   LET abi == AbiOf(o.env, o.conv) IN
   \/ o.err # "Ok"                                        \* refusing a signature is not a wrong placement
   \/ /\ ConsistFails(o) = "ok"
@@ -271,6 +271,9 @@ Conforms(o) ==
           LET sts == States(abi, o.args, o.va) IN
           /\ FirstBadArg(abi, o, sts) = 0
           /\ StackSizeOk(abi, o, sts)
+
+(* the sanitizer build must not abort on the input, and the placement must be the ABI's *)
+Conforms(o) == o.abort = "" /\ PlacementOk(o)
 
 (* ------------------------------------------------------------------------------------------------------- *)
 (* diagnosis of a non-conforming observation (used only to name the finding; the verdict is Conforms)       *)
@@ -301,15 +304,16 @@ ArgDiag(abi, o, sts, j) ==
 UnassignedType(o) == LET j == CHOOSE j \in 1..Len(o.a) : \E m \in 1..Len(o.a[j]) : o.a[j][m].k = "none" IN TyKey(o.args[j])
 
 Diag(o) ==
-  LET abi == AbiOf(o.env, o.conv) IN
-  IF ConsistFails(o) # "ok"
-  THEN <<abi, "consistency", ConsistFails(o), IF ConsistFails(o) = "unassigned" THEN UnassignedType(o) ELSE <<>> >>
+  LET abi == AbiOf(o.env, o.conv)
+      asserted == SigAsserted(abi, o.args, o.va)
+      sts == States(abi, o.args, o.va)
+      j == IF asserted THEN FirstBadArg(abi, o, sts) ELSE 0 IN
+  IF o.abort # "" THEN <<abi, "sanitizer-abort", o.abort>>
   ELSE IF abi # "none" /\ ConstFails(abi, o) # "ok" THEN <<abi, "constant", ConstFails(abi, o)>>
+  ELSE IF j # 0 THEN <<abi>> \o ArgDiag(abi, o, sts, j)
+  ELSE IF asserted /\ ~StackSizeOk(abi, o, sts) THEN <<abi, "stack-size", NeededStack(abi, o.args, sts), o.ass>>
   ELSE IF abi # "none" /\ ~RetOk(abi, o) THEN <<abi, "return", TyKey(o.ret), ExpectedRet(abi, o.ret)>>
-  ELSE LET sts == States(abi, o.args, o.va)
-           j == FirstBadArg(abi, o, sts) IN
-       IF j # 0 THEN <<abi>> \o ArgDiag(abi, o, sts, j)
-       ELSE <<abi, "stack-size", NeededStack(abi, o.args, sts), o.ass>>
+  ELSE <<abi, "consistency", ConsistFails(o), IF ConsistFails(o) = "unassigned" THEN UnassignedType(o) ELSE <<>> >>
 
 (* expected placement in printable form (for reports and for the gcc/clang model validation) *)
 ExpectedArgs(abi, args, va) == LET sts == States(abi, args, va) IN [q \in 1..Len(args) |-> sts[q].pk]
